@@ -111,3 +111,27 @@ Tactic Notation "by_callee" ident(node) :=
   destruct node as [| | | | | | | | | | | callee args | | | | | | | | | | |]; try reflexivity;
   destruct args as [|[[k nm] arg] [|a2 rest]]; try (destruct callee; reflexivity).
 
+
+(* ------------------------------------------------------------------ FURB181: h.digest(<n>).hex() -> h.hexdigest(<n>) *)
+(* the types refurb's resolution may answer for a hashlib object: every constructor of the module and typeshed's three classes *)
+Definition hash_types : list string :=
+  ["hashlib._BlakeHash"; "hashlib._Hash"; "hashlib._VarLenHash"; "hashlib.blake2b"; "hashlib.blake2s"; "hashlib.md5"; "hashlib.sha1";
+   "hashlib.sha224"; "hashlib.sha256"; "hashlib.sha384"; "hashlib.sha3_224"; "hashlib.sha3_256"; "hashlib.sha3_384"; "hashlib.sha3_512";
+   "hashlib.sha512"; "hashlib.shake_128"; "hashlib.shake_256"].
+
+(* the advice keeps the object and the (optional) length argument exactly as written; `len` is what stands between the parentheses *)
+Definition hexdigest_advice (root : expr) (len : part) : template :=
+  [PLit "Replace `"; PExpr root; PLit ".digest("; len; PLit ").hex()"; PLit "` with `"; PExpr root; PLit ".hexdigest("; len; PLit ")"; PLit "`"].
+
+Definition spec_181 (type_is : expr -> string -> bool) (node : expr) : list template :=
+  match node with
+  | ECall (EMember (ECall (EMember root m1 _) dargs) m2 _) [] =>
+      if String.eqb m1 "digest" && String.eqb m2 "hex" && existsb (type_is root) hash_types then
+        match dargs with
+        | [] => [hexdigest_advice root (PLit "")]
+        | [(_, _, a)] => [hexdigest_advice root (PExpr a)]
+        | _ => []
+        end
+      else []
+  | _ => []
+  end.
